@@ -20,3 +20,9 @@ func NewPublicIPFetcherWithClient(client *http.Client) *PublicIPFetcher {
 func VerifIPCheckers() []string {
 	return append([]string(nil), ipCheckers...)
 }
+
+// VerifSetIPCheckers replaces the provider list (nil restores nothing: pass the list returned by
+// VerifIPCheckers to put the original back)
+func VerifSetIPCheckers(urls []string) {
+	ipCheckers = append([]string(nil), urls...)
+}
